@@ -17,12 +17,14 @@ def to_smt2(ob, extra_axioms=()):
     return s.to_smt2()
 
 
-def _z3_check(smt, timeout_ms, mbqi, seed=0):
+def _z3_check(smt, timeout_ms, mbqi, seed=0, eager=None):
     s = z3.Solver()
     s.set('timeout', timeout_ms)
     if seed:
         s.set('random_seed', seed)
         s.set('smt.random_seed', seed)
+    if eager is not None:
+        s.set('smt.qi.eager_threshold', float(eager))
     if not mbqi:
         s.set('smt.mbqi', False)
         s.set('auto_config', False)
@@ -62,15 +64,18 @@ def _solve_one(args):
     backend, note = 'z3-ematching', ''
     try:
         v, note = _z3_check(smt, timeout_ms, mbqi=False)
-        if v == 'unknown':
-            # a timeout of the E-matching run is sensitive to the instantiation order: two more attempts with other seeds
-            # (any `unsat` is a proof; the verdict of an invalid query — saturation — does not depend on the seed)
-            for seed in (7, 23):
-                v_, note_ = _z3_check(smt, timeout_ms, mbqi=False, seed=seed)
-                if v_ in ('unsat', 'sat', 'saturated'):
+        if v not in ('unsat', 'sat'):
+            # Neither a timeout nor a saturation of the E-matching run is definitive: both depend on the instantiation order
+            # and on z3's cost cut-offs (qi.eager_threshold).  More attempts with other seeds / a higher cut-off; any `unsat`
+            # is a proof.  Only when every attempt fails is the obligation handed to MBQI and cvc5 and then reported.
+            for seed, eager in ((7, None), (23, 100), (0, 1000)):
+                v_, note_ = _z3_check(smt, timeout_ms, mbqi=False, seed=seed, eager=eager)
+                if v_ in ('unsat', 'sat'):
                     v, note = v_, note_
-                    backend = 'z3-ematching(seed %d)' % seed
+                    backend = 'z3-ematching(seed %d%s)' % (seed, ', eager_threshold %d' % eager if eager else '')
                     break
+                if v_ == 'saturated' and v != 'saturated':
+                    v, note = v_, note_
         if v in ('unsat', 'sat') or not full:
             return name, ('failed' if v == 'saturated' and full else v), backend, round(time.time() - t0, 3), note
         v2, note2 = _z3_check(smt, timeout_ms, mbqi=True)
@@ -123,7 +128,10 @@ def solve_all(obligations, timeout_s=10, jobs=None, use_cvc5=True, extra_axioms=
             ob.name = nm
         else:
             seen[nm] = 0
-        tasks.append((nm, to_smt2(ob, extra_axioms), int((min(timeout_s, 2) if ob.kind == 'canary' else timeout_s) * 1000), use_cvc5 and ob.kind != 'canary'))
+        smt_ = to_smt2(ob, extra_axioms)
+        import hashlib
+        QHASH[nm] = hashlib.sha256(smt_.encode()).hexdigest()[:16]
+        tasks.append((nm, smt_, int((min(timeout_s, 2) if ob.kind == 'canary' else timeout_s) * 1000), use_cvc5 and ob.kind != 'canary'))
     out = {}
     if not tasks:
         return out
@@ -140,3 +148,4 @@ def solve_all(obligations, timeout_s=10, jobs=None, use_cvc5=True, extra_axioms=
 
 
 CROSS = {}
+QHASH = {}        # obligation name -> hash of the exact SMT query text (tells a re-run of an identical query from a changed one)
